@@ -7,10 +7,13 @@
    strictly weaker enemy pieces next to an unfrozen stronger friendly piece (not at the last step),
    pull completions into the square just vacated by a stronger friendly piece, and - while a push
    is pending - only its completions.
-   PARTIAL: the equivalence of this step automaton with the move-level wording of the rule book
-   (T2 of DESIGN.md: prefixes of legal turns) is not proved here. *)
+   C01_rulebook is the property at full strength: the move-level wording of the rule book (spec/Turns.v:
+   single steps, pushes and pulls, each legal on the board before it, at most four steps) against
+   the engine's step-by-step lists; it composes T1 (engine = step automaton) with T2 (step
+   automaton = prefixes of legal move sequences). *)
 From Coq Require Import NArith List Bool.
-From Arimaa Require Import Types U64 Board Engine Cells Rules Monitors Refine Invariant Traps Pending.
+From Arimaa Require Import Types U64 Board Engine Cells Rules Turns Monitors Refine Invariant Traps Pending T2b T2a Playable.
+Import ListNotations.
 Open Scope N_scope.
 
 Theorem C01_offered_iff_rules : forall s pp i d, PlayInv s pp ->
@@ -63,3 +66,32 @@ Theorem C01_rabbit_never_backward : forall s pp i d, PlayInv s pp -> In (Move i 
   cell (board s) i = Some (side s, Rabbit) -> backward (side s) d = false.
 Proof. exact own_rabbit_not_backward. Qed.
 Print Assumptions C01_rabbit_never_backward.
+
+(* THE PROPERTY: from the start of a turn in a position without trap violations, the step sequences the engine lets the
+   mover play are exactly the prefixes of legal Arimaa turns.  playable s l: every step of l is in the rule-only list
+   of the state reached by the previous ones; mvs_ok c g ms: every move of ms (MSingle / MPush / MPull) is legal on the
+   board the previous moves produced; flatten ms: its steps. *)
+Theorem C01_rulebook : forall s pp l, PlayInv s pp -> step_of pp = 0 -> pstate pp = PPNone -> legal_traps (cell (board s)) ->
+  move_no s < P64 -> (length l <= 4)%nat ->
+  (playable s l <->
+   exists ms, mvs_ok (cell (board s)) (side s) ms = true /\ is_prefix l (flatten ms) /\ (length (flatten ms) <= 4)%nat).
+Proof. exact rulebook. Qed.
+Print Assumptions C01_rulebook.
+
+(* its square-level half, independent of the engine: the step automaton accepts exactly the prefixes of legal move sequences *)
+Theorem C01_automaton_iff_rulebook : forall c g l, on_board c -> legal_traps c ->
+  (accepts c g 0 SNone l = true <->
+   exists ms, mvs_ok c g ms = true /\ is_prefix l (flatten ms) /\ (length (flatten ms) <= 4)%nat).
+Proof. exact T2. Qed.
+Print Assumptions C01_automaton_iff_rulebook.
+
+(* the notion of legal move is not vacuous (gold elephant d4, silver rabbit d5, silver cat e4, gold rabbit h1) *)
+Theorem C01_examples :
+  mvs_ok ex_cells true [MPush 27 Up 35 Up; MPull 27 Left 36 Up] = false /\
+  mvs_ok ex_cells true [MPush 27 Up 35 Up; MSingle 27 Down] = true /\
+  mvs_ok ex_cells true [MPull 35 Left 36 Left; MSingle 63 Up] = true /\
+  mvs_ok ex_cells true [MPush 36 Right 35 Right; MPush 27 Up 36 Left] = false /\
+  accepts ex_cells true 0 SNone [(27, Up); (35, Up); (27, Down)] = true /\
+  accepts ex_cells true 0 SNone [(27, Up); (63, Up)] = false.
+Proof. exact ex_push_then_pull. Qed.
+Print Assumptions C01_examples.
